@@ -622,6 +622,7 @@ impl Message<PartitionSyncResponse> for PartitionReplicatorActor {
 
                     let tx_id = *commit.transaction_id();
                     let confirmation_count = commit.confirmation_count();
+                    let first_partition_sequence = first.partition_sequence;
                     let tx = Transaction::new(
                         first.partition_key,
                         first.partition_id,
@@ -642,7 +643,12 @@ impl Message<PartitionSyncResponse> for PartitionReplicatorActor {
                     )
                     .unwrap()
                     .with_transaction_id(tx_id)
-                    .with_confirmation_count(confirmation_count);
+                    .with_confirmation_count(confirmation_count)
+                    // The commit (and its confirmation count) is only valid at the sequence it
+                    // has on the coordinator
+                    .expected_partition_sequence(ExpectedVersion::from_next_version(
+                        first_partition_sequence,
+                    ));
                     match self.write_transaction(tx).await {
                         Ok(append) => {
                             debug!(
@@ -651,6 +657,14 @@ impl Message<PartitionSyncResponse> for PartitionReplicatorActor {
                                 self.partition_id,
                                 append.first_partition_sequence,
                                 append.last_partition_sequence
+                            );
+                        }
+                        Err(WriteError::WrongExpectedSequence { current, .. }) => {
+                            // The local log is not at this commit's sequence (it advanced in the
+                            // meantime, or never reached it): skip the commit
+                            debug!(
+                                "skipping sync commit at sequence {first_partition_sequence}, partition {} is at {current:?}",
+                                self.partition_id
                             );
                         }
                         Err(err) => {
